@@ -112,6 +112,32 @@ T.append(tree('D14 completion', cmd('app', 'root', subOpt=True, extra=[grp('Appl
     cmd('grp', 'exec', subOpt=True, extra=[grp('Grp', [opt('g', 'gee')])], cmds=[cmd('sub', 'exec', extra=[grp('Sub', [opt('', 'subopt')])])]),
     cmd('secret', 'exec', hidden=True, extra=[grp('Secret', [])])])))
 
+# D15 visibility and layout: hidden option / group / command at each depth, masks, value names, choices, env keys with
+# namespaces, described positionals, non-ASCII names and descriptions, a long unbreakable word, an embedded newline
+T.append(tree('D15 help', cmd('app', 'root', extra=[grp('Application Options', [
+    opt('v', 'verbose', desc='Show verbose debug information'),
+    opt('n', 'naïve', 'scalar', 'string', desc='naïve café 世界 Привет', valueName='значение'),
+    opt('', 'pass', 'scalar', 'string', desc='the password', defaults=['SECRET1'], mask='****'),
+    opt('', 'tok', 'scalar', 'string', desc='the token', defaults=['SECRET2'], mask='-'),
+    opt('c', 'color', 'scalar', 'string', desc='colour', choices=['red', 'green'], defaults=['red'], env='COLOR'),
+    opt('', 'hid', 'scalar', 'string', desc='hidden option', hidden=True),
+    opt('w', '', 'flag', desc='a supercalifragilisticexpialidociouslylongwordthatcannotbebrokenatablank end'),
+    opt('', 'nodesc', 'scalar', 'int'),
+    opt('m', 'map', 'map', 'string', desc='with\nnewline', init=['b:2', 'a:1'])],
+    [grp('Nested', [opt('', 'x', 'scalar', 'string', desc='nested x', env='X')], ns='ns', envNs='NS'),
+     grp('Hidden Group', [opt('', 'inhid', 'flag', desc='in hidden group')], hidden=True)])],
+    args=[{'name': 'fichier', 'vtype': 'string', 'desc': 'the input file 世界'}, {'name': 'rest', 'vtype': 'string', 'slice': True}],
+    cmds=[])))
+T.append(tree('D16 help commands', cmd('app', 'root', extra=[grp('Application Options', [opt('v', 'verbose', desc='verbose')])], cmds=[
+    cmd('add', 'exec', aliases=['a', 'ad'], desc='add things', extra=[grp('Add Options', [opt('f', 'force', desc='force it'), opt('', 'nom', 'scalar', 'string', desc='le nom', valueName='NOM')],
+        [grp('Deep', [opt('', 'deep', 'flag', desc='deep flag')], ns='d')])],
+        args=[{'name': 'élément', 'vtype': 'string', 'desc': 'what to add'}],
+        cmds=[cmd('remote', 'exec', desc='add a remote', extra=[grp('Remote', [opt('u', 'url', 'scalar', 'string', desc='the url')])]),
+              cmd('ghost', 'exec', hidden=True, desc='hidden sub', extra=[grp('Ghost', [opt('', 'boo', 'flag', desc='boo')])])]),
+    cmd('rm', 'exec', desc='', extra=[grp('Rm', [opt('r', '', 'flag', desc='recursive')])]),
+    cmd('secret', 'exec', hidden=True, desc='hidden command', extra=[grp('Secret', [opt('', 'sec', 'flag', desc='secret flag')])]),
+    cmd('zz', 'exec', aliases=['z'], desc='last', extra=[grp('Zz', [])])])))
+
 with open('argparse.ndjson', 'w') as f:
     for i, t in enumerate(T, 1):
         t['id'] = i
